@@ -116,7 +116,7 @@ pub fn plan_run(verif_seed: u64, run_index: u64, lim: &Limits) -> Plan {
     let fav_bb = rng_bb.chance(0.5);
     // a few runs are large: thresholds on the number of cells (block sizes,
     // "small input" shortcuts) are invisible below them
-    let big = lim.max_n >= 200 && rng.chance(0.015);
+    let big = lim.max_n >= 200 && rng.chance(0.025);
     // and some are of medium size with all kinds of preemption on: work queues and block sizes of a
     // changed tree typically start to matter at a few hundred cells (e.g. 64 cells x (workers + 2))
     // development knob (never set by the checks): VERIF_DEV_FOCUS=<op name> makes every run a
@@ -228,6 +228,8 @@ pub fn plan_run(verif_seed: u64, run_index: u64, lim: &Limits) -> Plan {
             (*rng.pick(ALL_OPS), rng.below(ncase) as usize)
         };
         let op = focus.unwrap_or(op);
+        // (large runs have two or three ops; the plain build is the entry point most likely to carry a size threshold)
+        let op = if big && i == 0 && rng_bb.chance(0.4) { OpKind::Build } else { op };
         let with = if rng.chance(0.12) { Some((*rng.pick(ALL_OPS), rng.below(ncase) as usize)) } else { None };
         let split = if rng.chance(0.6) { fav_split } else { *rng.pick(SPLITS) };
         let sched = if rng.chance(0.6) { fav_sched } else { *rng.pick(SCHEDS) };
